@@ -169,8 +169,3 @@ func replayCLI(cfg *propCfg, rf *replayFile, scratch string) int {
 	fmt.Printf("VIOLATION property=%s replay=%s\n", rf.Property, "(given file)")
 	return 1
 }
-
-func selftest(args []string) int {
-	infra("selftest not built yet")
-	return 2
-}
